@@ -343,6 +343,9 @@ impl StateCheck for C10 {
             ("decoration:blank_lines", format!("\n\n{}\n\n", body.replace('\n', "\n\n"))),
             ("decoration:comment_lines", format!("# comentario\n{}# fin", body.replace('\n', "\n# x, CONSUMO, ILU, ELECTRICIDAD, 99\n"))),
             ("decoration:trailing_comments", body.lines().map(|l| if l.contains('#') || l.trim().is_empty() { format!("{l}\n") } else { format!("{l} # nota, con comas, 1, 2\n") }).collect()),
+            // comments that look like the program's own notes (its balancing note, its auxiliary reassignment note, the low-SCOP tag is
+            // NOT one of them: that one is documented to change the DHW indicator)
+            ("decoration:program_like_comments", body.lines().map(|l| if l.contains('#') || l.trim().is_empty() || l.contains("DEMANDA") { format!("{l}\n") } else if l.contains("PRODUCCION") { format!("{l} # Equilibrado de consumo sin producción declarada\n") } else { format!("{l} # Reasignación automática de consumos auxiliares\n") }).collect()),
             ("decoration:whitespace", body.lines().map(|l| if l.trim_start().starts_with('#') { format!("  \t{l} \t \n") } else { format!("  \t{} \t \n", l.replace(", ", " ,\t ")) }).collect()),
             ("decoration:crlf", body.replace('\n', "\r\n")),
             ("decoration:bom+header+crlf", format!("\u{feff}vector,tipo,src_dst\r\n{}", body.replace('\n', "\r\n"))),
@@ -476,6 +479,7 @@ pub fn aux_env_letters() -> Vec<Letter> {
     al.push(Letter::one(u(None, "ACS", "EAMBIENTE", &k(&[1, 0]))));
     al.push(Letter::one(p(None, "EL_INSITU", &k(&[1, 3]))));
     al.push(Letter::one(d("ACS", &k(&[4, 4]))));
+    al.push(Letter::many(vec![d("ACS", &k(&[4, 4])), d("CAL", &k(&[3, 1])), d("REF", &k(&[1, 2]))]));
     al.push(Letter::one(u(Some(0), "CAL", "BIOMASA", &k(&[1, 1]))));
     al.push(Letter::one(u(Some(3), "REF", "RED1", &k(&[1, 1]))));
     // DHW from a biomass boiler that declares its output, beside a gas boiler (the DHW indicator uses the output)
